@@ -225,6 +225,13 @@ theorem search_total (fs : Dir) (c : Cache) (b e m : Nat) (res : Bytes) (kd ki :
     (∃ c' xs, findFrom (cutIdx (cutData fs kd) ki) c b m = (c', xs)) :=
   ⟨⟨_, _, rfl⟩, ⟨_, _, rfl⟩⟩
 
+/-- … and whatever the cache state, the cut offsets and the bytes are, every item `FindByTimeAndResource`
+    returns was parsed from a line (or, by `read_after_cut`, the one fragment) of a retained data file:
+    nothing is invented by the search itself -/
+theorem search_after_cut_only_file_items (fs : Dir) (c : Cache) (b e : Nat) (res : Bytes) (kd ki : Nat) :
+    ∀ x ∈ (find (cutIdx (cutData fs kd) ki) c b e res).2, FromFiles (cutIdx (cutData fs kd) ki) x :=
+  find_fromFiles _ c b e res
+
 /-! ## 7. what the pinned code violates (known findings, `known/C17.jsonl`) -/
 
 def mk (res : Nat) (pass rt : Nat) : Item :=
